@@ -25,6 +25,12 @@ pub struct Case {
     /// additionally run through the real FollowFileExecutor (child process); only for statements without join
     #[serde(default)]
     pub follow: bool,
+    /// index (over all files) of a line whose bytes are replaced by invalid UTF-8: reading it fails
+    #[serde(default)]
+    pub bad_line: Option<usize>,
+    /// long input: the lines are repeated this many times and only the listed interrupt points are tried
+    #[serde(default)]
+    pub long: Option<(usize, Vec<usize>)>,
 }
 
 pub struct C19;
@@ -37,6 +43,8 @@ struct Interrupted {
     file_lines_after: usize,
     /// file_line probes that found the flag still set (= lines legitimately taken)
     lines_taken_while_running: usize,
+    /// all file_line probes
+    file_probes: usize,
 }
 
 /// Runs the batch executor; the flag is cleared at the `at`-th event of `site` (1-based), or after `rows` printed lines.
@@ -47,12 +55,17 @@ fn run_interrupted(p: &crate::props::c06::Prepared, files: &[std::path::PathBuf]
     let after_file = Rc::new(Cell::new(0usize));
     let taken = Rc::new(Cell::new(0usize));
     let taken_out = taken.clone();
+    let probes = Rc::new(Cell::new(0usize));
+    let probes_out = probes.clone();
     {
         let running = running.clone();
         let count = count.clone();
         let after_join = after_join.clone();
         let after_file = after_file.clone();
         sqlgrep::verif_hooks::set_probe(Some(Box::new(move |s| {
+            if s == "file_line" {
+                probes.set(probes.get() + 1);
+            }
             if !running.load(Ordering::SeqCst) {
                 if s == "join_line" {
                     after_join.set(after_join.get() + 1);
@@ -78,7 +91,7 @@ fn run_interrupted(p: &crate::props::c06::Prepared, files: &[std::path::PathBuf]
     let options = RunOptions { stop_after_lines: rows, running: running.clone(), ..RunOptions::default() };
     let out = run_batch(&p.tables, &p.statement, files, options);
     sqlgrep::verif_hooks::set_probe(None);
-    Ok(Interrupted { out: out?, join_lines_after: after_join.get(), file_lines_after: after_file.get(), lines_taken_while_running: taken_out.get() })
+    Ok(Interrupted { out: out?, join_lines_after: after_join.get(), file_lines_after: after_file.get(), lines_taken_while_running: taken_out.get(), file_probes: probes_out.get() })
 }
 
 impl Property for C19 {
@@ -89,7 +102,7 @@ impl Property for C19 {
     }
 
     fn rule(&self) -> String {
-        "a statement (plain, DISTINCT, LIMIT, aggregate, join) x an input of <= 12 lines over 1-2 files x a joined file of <= 40 lines; EVERY interrupt point of the case is tried: the flag is cleared at the e-th \
+        "a statement (plain, DISTINCT, LIMIT, aggregate, join) x an input of <= 12 lines over 1-2 files (one line in eight cases unreadable, i.e. invalid UTF-8; one case in forty repeats its lines to 4200-9000 and tries six interrupt points instead of all) x a joined file of <= 40 lines; EVERY interrupt point of the case is tried: the flag is cleared at the e-th \
          `file_line` probe (before line e is taken), at the e-th `join_line` probe (while the joined file is loaded) and after the j-th printed record. Oracle against the uninterrupted run: execute() is Ok; \
          no input line is consumed after the flag is cleared (total_lines = e-1 / unchanged; at most 10 further joined-file lines while loading); the captured output is a prefix of the uninterrupted output; \
          an interrupted aggregate prints the table a fresh batch run prints for exactly the consumed lines. A slice of cases also runs through the real FollowFileExecutor in a child process. \
@@ -105,7 +118,7 @@ impl Property for C19 {
 
     fn cases(&self, tier: Tier) -> u64 {
         match tier {
-            Tier::Quick => 10_000,
+            Tier::Quick => 20_000,
             Tier::Thorough => 250_000,
         }
     }
@@ -150,15 +163,65 @@ impl Property for C19 {
             vec![lines]
         };
         let follow = g.joined.is_none() && t.chance(1, 25);
-        Case { table: g.table, joined: g.joined, query: g.query, files, joined_lines, follow }
+        let total: usize = files.iter().map(|f| f.len()).sum();
+        let bad_line = if total > 0 && t.chance(1, 8) { Some(t.draw(total)) } else { None };
+        let long = if !follow && total >= 4 && t.chance(1, 40) {
+            // beyond any "first few thousand lines" regime: 4200-9000 lines, a handful of interrupt points
+            let repeat = (4200 + t.draw(4800)) / total + 1;
+            let n = total * repeat;
+            let mut points: Vec<usize> = (0..4).map(|_| 1 + t.draw(n)).collect();
+            points.push(n - t.draw(total.min(n)));
+            points.push(4097 + t.draw(n - 4097));
+            Some((repeat, points))
+        } else {
+            None
+        };
+        Case { table: g.table, joined: g.joined, query: g.query, files, joined_lines, follow, bad_line, long }
     }
 
     fn check(&self, case: &Case, ctx: &Ctx, obs: &mut Obs) -> Result<(), Failure> {
         let p = prepare(ctx, &case.table, case.joined.as_ref(), &case.query, &case.joined_lines, "c19")?;
-        let contents: Vec<Vec<u8>> = case.files.iter().map(|f| lines_to_bytes(f)).collect();
+        // the input as byte lines (one line may be unreadable), optionally repeated
+        const UNREADABLE: &[u8] = b"c0=1;\xff\xfe;";
+        let repeat = case.long.as_ref().map(|l| l.0.max(1)).unwrap_or(1);
+        let mut index = 0usize;
+        let mut file_lines: Vec<Vec<Vec<u8>>> = Vec::new();
+        for f in &case.files {
+            let mut one: Vec<Vec<u8>> = Vec::new();
+            for l in f {
+                one.push(if case.bad_line == Some(index) { UNREADABLE.to_vec() } else { l.as_bytes().to_vec() });
+                index += 1;
+            }
+            file_lines.push(one);
+        }
+        if repeat > 1 {
+            // repeat the readable lines in front: the unreadable one (if any) stays in the last repetition
+            let flat: Vec<Vec<u8>> = case.files.iter().flatten().map(|l| l.as_bytes().to_vec()).collect();
+            let mut front: Vec<Vec<u8>> = Vec::new();
+            for _ in 1..repeat {
+                front.extend(flat.iter().cloned());
+            }
+            front.extend(file_lines[0].drain(..));
+            file_lines[0] = front;
+        }
+        let join_lines = |ls: &[Vec<u8>]| -> Vec<u8> {
+            let mut out = Vec::new();
+            for l in ls {
+                out.extend_from_slice(l);
+                out.push(b'\n');
+            }
+            out
+        };
+        let contents: Vec<Vec<u8>> = file_lines.iter().map(|f| join_lines(f)).collect();
         let files = scratch_files(ctx, "c19", &contents);
-        let all_lines: Vec<String> = case.files.iter().flatten().cloned().collect();
-        let context = format!("query: {}\n  tables: {}\n  files: {:?}\n  joined lines: {}", p.text, p.defs, case.files, case.joined_lines.len());
+        let all_lines: Vec<Vec<u8>> = file_lines.iter().flatten().cloned().collect();
+        if case.bad_line.is_some() {
+            obs.label("unreadable-line");
+        }
+        if repeat > 1 {
+            obs.label("long-input");
+        }
+        let context = format!("query: {}\n  tables: {}\n  files: {:?}\n  unreadable line: {:?}, long input: {:?}\n  joined lines: {}", p.text, p.defs, case.files, case.bad_line, case.long, case.joined_lines.len());
         let panic_fail = |m: String| Failure::new(format!("panic: {}", crate::run::panic_class(&m)), format!("panicked: {}\n  {}", m, context));
         let aggregate = p.statement.is_aggregate();
         if aggregate {
@@ -172,18 +235,24 @@ impl Property for C19 {
         }
         let kind = if aggregate { "aggregate" } else if case.query.join.is_some() { "join" } else { "select" };
 
-        let full = run_interrupted(&p, &files, None, None).map_err(panic_fail)?.out;
+        let full_run = run_interrupted(&p, &files, None, None).map_err(panic_fail)?;
+        let full_probes = full_run.file_probes;
+        let full = full_run.out;
         let n = all_lines.len();
+        let points: Vec<usize> = match &case.long {
+            Some((_, pts)) => pts.iter().map(|p| (*p).clamp(1, n + 1)).collect(),
+            None => (1..=(n + 1)).collect(),
+        };
         obs.nontrivial = n >= 3;
 
         // the table a fresh run prints for exactly the first k lines
         let batch_prefix = |k: usize| -> Result<RunOut, Failure> {
-            let f = scratch_files(ctx, "c19p", &[lines_to_bytes(&all_lines[..k.min(n)])]);
+            let f = scratch_files(ctx, "c19p", &[join_lines(&all_lines[..k.min(n)])]);
             run_batch(&p.tables, &p.statement, &f, RunOptions::default()).map_err(|m| Failure::new("panic", m))
         };
 
         // 1. interrupt before input line e is taken
-        for e in 1..=(n + 1) {
+        for e in points.iter().cloned() {
             obs.inner += 1;
             let r = run_interrupted(&p, &files, Some(("file_line", e)), None).map_err(panic_fail)?;
             let where_ = format!("interrupt at the {}. file_line probe", e);
@@ -194,12 +263,17 @@ impl Property for C19 {
                 }
                 continue;
             }
-            // did the uninterrupted run get that far (LIMIT / error may end it earlier)?
-            if full.total_lines < e as u64 {
+            // did the uninterrupted run get that far (LIMIT / an error may end it earlier)?
+            if full_probes < e {
                 continue;
             }
-            if r.out.result.is_err() && full.result.is_ok() {
-                return Err(Failure::new(format!("{}: error-after-interrupt", kind), format!("{}: execute() reported {:?}\n  {}", where_, r.out.result, context)));
+            // no error is reported: the lines consumed before the interrupt were all processed without one
+            // (an error the uninterrupted run meets at line e or later has not happened yet)
+            if r.out.result.is_err() && batch_prefix(e - 1)?.result.is_ok() {
+                return Err(Failure::new(
+                    format!("{}: error-after-interrupt{}", kind, if case.bad_line.is_some() { " (unreadable line ahead)" } else { "" }),
+                    format!("{}: execute() reported {:?}\n  {}", where_, r.out.result, context),
+                ));
             }
             if r.out.total_lines != (e - 1) as u64 {
                 return Err(Failure::new(
@@ -225,7 +299,11 @@ impl Property for C19 {
 
         // 2. interrupt after the j-th printed line (non-aggregate: rows appear while reading)
         if !aggregate {
-            for j in 1..=full.lines.len() {
+            let row_points: Vec<usize> = match &case.long {
+                Some((_, pts)) => pts.iter().map(|p| (*p).clamp(1, full.lines.len().max(1))).filter(|p| *p <= full.lines.len()).collect(),
+                None => (1..=full.lines.len()).collect(),
+            };
+            for j in row_points {
                 obs.inner += 1;
                 let r = run_interrupted(&p, &files, None, Some(j)).map_err(panic_fail)?;
                 let where_ = format!("interrupt after the {}. printed line", j);
@@ -271,9 +349,9 @@ impl Property for C19 {
         }
 
         // 4. the follow executor (child process)
-        if case.follow && case.query.join.is_none() {
+        if case.follow && case.query.join.is_none() && case.bad_line.is_none() && case.long.is_none() {
             obs.label("follow-executor");
-            let content: String = all_lines.iter().map(|l| format!("{}\n", l)).collect();
+            let content: String = all_lines.iter().map(|l| format!("{}\n", String::from_utf8_lossy(l))).collect();
             let job = |at: Option<usize>| crate::follow_child::FollowJob {
                 defs: p.defs.clone(),
                 query: p.text.clone(),
